@@ -580,7 +580,7 @@ class Exec:
                 return s.new_list(st, v.ty, s.llen(st.heap, v), lambda k: Select(arr, k))
             if n == 'cls' and isinstance(st.env.get('cls'), str): return s.construct(st, st.env['cls'], e)
             if n in s.p.classes: return s.construct(st, n, e)
-            if n in s.p.funcs: return s.call(st, s.p.funcs[n], [s.ev(st, a) for a in e.args], name=n)
+            if n in s.p.funcs: return s.call(st, s.p.funcs[n], [s.ev(st, a) for a in e.args], name=n, kwargs={k.arg: s.ev(st, k.value) for k in e.keywords})
             if n in s.spec.builtins: return s.spec.builtins[n](s, st, [s.ev(st, a) for a in e.args])
             raise Unsupported(f'call {n}')
         if isinstance(fn, ast.Attribute) and ast.unparse(fn) in s.spec.builtins:
